@@ -91,6 +91,8 @@ func laxCerts() ([]byte, []byte, []byte) {
 type SrcLog struct {
 	Seed    uint64
 	Opaque  bool // entries are opaque bytes (not MerkleTreeLeaf structures); enough for the Fetcher, which never looks inside
+	Unique  bool // every index carries a different certificate (x509 entries only): the first UniquePool indices a distinct well-formed
+	// certificate, the others distinct byte strings that do not parse. Needed where the certificate bytes identify the leaf (SHA256_CERT_DATA).
 	Classes [NClasses]SrcClass
 	ca      []byte
 	tbs     []byte
@@ -129,6 +131,49 @@ func NewSrcLog(seed uint64, opaque bool) *SrcLog {
 	return l
 }
 
+// UniquePool is the number of distinct well-formed certificates available to a Unique log.
+const UniquePool = 40
+
+var (
+	uniqOnce sync.Once
+	uniqPool [][]byte
+)
+
+func uniquePool() [][]byte {
+	uniqOnce.Do(func() {
+		key, err := ecdsa.GenerateKey(elliptic.P256(), rand.Reader)
+		if err != nil {
+			panic(err)
+		}
+		for i := 0; i < UniquePool; i++ {
+			cn := fmt.Sprintf("u%d.example.com", i)
+			tmpl := &x509.Certificate{SerialNumber: big.NewInt(int64(88000 + i)), Subject: pkix.Name{CommonName: cn}, NotBefore: time.Unix(1500000000, 0),
+				NotAfter: time.Unix(1900000000, 0), DNSNames: []string{cn}}
+			der, err := x509.CreateCertificate(rand.Reader, tmpl, tmpl, &key.PublicKey, key)
+			if err != nil {
+				panic(err)
+			}
+			uniqPool = append(uniqPool, der)
+		}
+	})
+	return uniqPool
+}
+
+// CertOf returns the certificate bytes entry i carries (what SHA256_CERT_DATA hashes), whether the entry is a precertificate,
+// and whether the certificate fails to parse.
+func (l *SrcLog) CertOf(i int64) (cert []byte, precert, bad bool) {
+	if l.Unique {
+		if i < UniquePool {
+			return uniquePool()[i], false, false
+		}
+		b := []byte{0x30, 0x0a, 0x04, 0x08, 0, 0, 0, 0, 0, 0, 0, 0}
+		binary.BigEndian.PutUint64(b[4:], uint64(i))
+		return b, false, true
+	}
+	c := l.Classes[l.Class(i)]
+	return c.Cert, c.Precert, c.Bad
+}
+
 // Class returns the class of entry i.
 func (l *SrcLog) Class(i int64) int { return int(Pay(l.Seed, i) % NClasses) }
 
@@ -150,6 +195,10 @@ func (l *SrcLog) Entry(i int64) ct.LeafEntry {
 		return ct.LeafEntry{LeafInput: li, ExtraData: r.Bytes(r.Intn(12))}
 	}
 	c := l.Classes[p%NClasses]
+	if l.Unique {
+		cert, _, _ := l.CertOf(i)
+		c = SrcClass{Cert: cert}
+	}
 	if !c.Precert {
 		leaf := ct.CreateX509MerkleTreeLeaf(ct.ASN1Cert{Data: c.Cert}, p)
 		return ct.LeafEntry{
